@@ -95,6 +95,9 @@ def exprs(budget, names, allow_partial=True):
     yield f'auto_config.exempt(N.node_b)(x={s})', 1
   yield 'arg_factory.partial(N.node, x=N.node_b)', 1
   yield 'arg_factory.partial(N.node, x=functools.partial(N.node_b, x=a))', 1
+  yield ("arg_factory.partial(N.node, x=functools.partial(N.node_pos, a, 'p2'"
+         ", 'v1'))"), 1
+  yield 'arg_factory.partial(N.node_pos, N.node_b, k=N.node)', 1
   # two sub-expressions
   if budget >= 2:
     small = [s for s in exprs(budget - 2, names) if s[1] <= budget - 2]
@@ -150,6 +153,12 @@ def programs(b):
           f"def make():\n  {cv} = 'closure-value'\n  other = 5\n"
           f"  def prog(a, b='bd'):\n    return [{e2}, {cv}, other]\n"
           f"  return prog\nprog = make()\n")
+    e2 = e.replace("'lit'", 'cv')
+    yield 'closure-rebind', (
+        f"def make():\n  cv = 'value-at-decoration-time'\n"
+        f"  def prog(a, b='bd'):\n    return [{e2}, cv]\n"
+        f"  def rebind(v):\n    nonlocal cv\n    cv = v\n"
+        f"  return prog, rebind\nprog, rebind = make()\n")
     yield 'staticmethod', (
         "class K:\n  @DECORATOR\n  @staticmethod\n"
         f"  def prog(a, b='bd'):\n    return {e}\n")
@@ -226,6 +235,9 @@ def load_program(kind, src):
     else:
       decorated = auto_config.auto_config(
           plain, experimental_result_must_contain_buildable=False)
+    if kind == 'closure-rebind':
+      # the closure variable is re-bound after the decoration
+      mod.__dict__['rebind']('value-after-rebinding')
     return plain, decorated, filename, name
   except Exception:
     sys.modules.pop(name, None)
